@@ -60,4 +60,33 @@ func init() {
 			"file system": "simulated disk with fault points",
 		},
 	}
+	props["C09"] = &propCfg{
+		ID: "C09", Harness: "exc",
+		Quick:    tierCfg{Runs: 40000, Procs: 8, WallS: 600},
+		Thorough: tierCfg{Runs: 2000000, Procs: 16, Seeds: 3, WallS: 3000},
+		Rule: "one evaluation = one generated program (1-3 modules on the simulated disk: functions, a class with constructor and methods, a custom exception class per module, bounded 每当/遍历 loops, branches, 拦截 blocks of class 异常 / 探针异常 / a custom class on any body, handlers that themselves raise, CRLF line ends, comments, multi-line comments and multi-line text literals before statements) executed by the real interpreter through LoadFile with the probe library 《@探针》 registered through SetExternalLibs; the simulator draws which dynamic probe invocation fails and how (exception signal, custom-class exception object, plain Go error, RuntimeError); generated 抛出 (often under a constant condition), 1 / 0 and a failing built-in (转换数值) are part of the workload. Oracle: a reference interpreter over the generator's AST (frames, locals per frame, handler matching by class name, 其 binding, unwinding) replays the same fault plan and predicts the display trace (incl. follow-up probes of caller locals, 其值 and call results after every call) and the result or the uncaught message. distinct_nontrivial = distinct (first uncaught raise kind | handled count | module count | fault kind) tuples; a run is non-trivial when something was raised.",
+		Assume: []string{
+			"reference semantics = the property's text: every raise kind is an exception of class 异常 unless it is a custom-class object; handlers match by exact class name; a handler without 输出 yields 空; handlers do not protect themselves",
+			"programs avoid constructs whose semantics other properties dispute (no 输出 inside loops, explicit 输出 at the end of every function body)",
+		},
+		Components: map[string]string{
+			"pkg/exec, pkg/runtime, pkg/value, pkg/error, parser, pkg/io": "real code (transformed copy)",
+			"library functions": "real registration seam (runtime.Library via SetExternalLibs); the probe function is the simulator's fault point",
+			"file system": "simulated disk",
+		},
+	}
+	props["C18"] = &propCfg{
+		ID: "C18", Harness: "exc",
+		Quick:    tierCfg{Runs: 40000, Procs: 8, WallS: 600},
+		Thorough: tierCfg{Runs: 2000000, Procs: 16, Seeds: 3, WallS: 3000},
+		Rule: "PARTIAL CLAIM (runtime half only). one evaluation = one generated program (1-3 modules on the simulated disk: functions, a class with constructor and methods, a custom exception class per module, bounded 每当/遍历 loops, branches, 拦截 blocks of class 异常 / 探针异常 / a custom class on any body, handlers that themselves raise, CRLF line ends, comments, multi-line comments and multi-line text literals before statements) executed by the real interpreter through LoadFile with the probe library 《@探针》 registered through SetExternalLibs; the simulator draws which dynamic probe invocation fails and how (exception signal, custom-class exception object, plain Go error, RuntimeError); generated 抛出 (often under a constant condition), 1 / 0 and a failing built-in (转换数值) are part of the workload. Oracle: for runs whose behaviour agrees with the reference interpreter and that end in an uncaught fault, the (module, line) entries parsed from exec.DisplayError must equal the frames active at the fault in the reference interpreter (module and physical call-site line per frame, innermost statement line; library/native frames ignored; handler frame separate or merged; outermost-first or innermost-first). distinct_nontrivial as for C09; a run is non-trivial when it ended in an uncaught fault.",
+		Assume: []string{
+			"the syntax-error half of C18 (caret column) is a pure function of the text and is NOT covered",
+			"physical line numbers are assigned by the harness renderer (comments, multi-line literals, CRLF included)",
+		},
+		Components: map[string]string{
+			"pkg/exec (error_printer, eval), pkg/runtime (callframe, vm), lexer line table, parser": "real code (transformed copy)",
+			"file system": "simulated disk",
+		},
+	}
 }
